@@ -152,6 +152,14 @@ pub fn show_target(store: &AnnotationStore, sel: &Selector) -> String {
     }
 }
 
+pub fn unhex_s(s: &str) -> String {
+    if s == "-" {
+        return String::new();
+    }
+    let bytes: Vec<u8> = (0..s.len() / 2).filter_map(|i| u8::from_str_radix(&s[2 * i..2 * i + 2], 16).ok()).collect();
+    String::from_utf8_lossy(&bytes).to_string()
+}
+
 fn hl(v: impl Iterator<Item = usize>) -> String {
     let v: Vec<String> = v.map(|x| x.to_string()).collect();
     if v.is_empty() { "-".into() } else { v.join(",") }
@@ -226,6 +234,42 @@ impl Exec {
             }
             "rmres" if t.len() == 3 => ok_or_err(guarded(std::panic::AssertUnwindSafe(|| store.remove_resource(t[2]))), |_| "-".into()),
             "rmset" if t.len() == 3 => ok_or_err(guarded(std::panic::AssertUnwindSafe(|| store.remove_dataset(t[2]))), |_| "-".into()),
+            "resolve" if t.len() == 4 => {
+                // C03: look a public identifier up through the API; answer = handle of the item found
+                let id = unhex_s(t[3]);
+                let idr = id.as_str();
+                let kind: Vec<&str> = t[2].split(':').collect();
+                let r = guarded(std::panic::AssertUnwindSafe(|| match kind[0] {
+                    "ann" => store.annotation(idr).map(|x| x.handle().as_usize()),
+                    "res" => store.resource(idr).map(|x| x.handle().as_usize()),
+                    "set" => store.dataset(idr).map(|x| x.handle().as_usize()),
+                    "key" => store.dataset(kind[1]).and_then(|s| s.key(idr).map(|x| x.handle().as_usize())),
+                    _ => store.dataset(kind[1]).and_then(|s| s.annotationdata(idr).map(|x| x.handle().as_usize())),
+                }));
+                match r {
+                    Ok(Some(h)) => format!("h{}", h),
+                    Ok(None) => "none".into(),
+                    Err(m) => format!("panic:{}", m.chars().take(60).collect::<String>()),
+                }
+            }
+            "stripann" => {
+                store.strip_annotation_ids();
+                "ok -".into()
+            }
+            "stripdata" => {
+                store.strip_data_ids();
+                "ok -".into()
+            }
+            "reindex" => {
+                let old = std::mem::replace(store, new_store());
+                match guarded(std::panic::AssertUnwindSafe(|| old.reindex())) {
+                    Ok(st) => {
+                        *store = st;
+                        "ok -".into()
+                    }
+                    Err(m) => format!("panic:{}", m.chars().take(60).collect::<String>()),
+                }
+            }
             "obs" => match guarded(std::panic::AssertUnwindSafe(|| observe(store))) {
                 Ok(s) => s,
                 Err(m) => format!("panic:{}", m.chars().take(70).collect::<String>()),
@@ -873,6 +917,115 @@ fn run_script(rep: &mut Report, script: &[String], property: Option<&str>) -> Ve
     outs
 }
 
+/// lookup strings: every id the script mentions (also removed / never created ones) and a menu of
+/// hostile strings around the temporary-id syntax
+fn lookup_strings(script: &[String], rng: &mut Rng) -> Vec<String> {
+    let mut v: BTreeSet<String> = BTreeSet::new();
+    for l in script {
+        for tok in l.split(|c: char| c.is_whitespace() || ":/;[]".contains(c)) {
+            if tok.len() >= 2 && tok.len() <= 6 && tok.chars().next().map(|c| "arsdkn".contains(c)).unwrap_or(false) {
+                v.insert(tok.to_string());
+            }
+        }
+    }
+    for x in ["", "!", "!A", "!A0", "!A1", "!A2", "!R0", "!S0", "!K0", "!D0", "!T0", "!a0", "!\u{c9}0", "!\u{c9}x", "!A00", "!A-1", "!A+1", "!A 1", "!A1 ",
+              "!A99999999999999999999999", "!A18446744073709551616", "!A1x", "a0 ", " a0", "A0", "!\u{ff21}0", "!A\u{663}", "!!A0", "\u{1F600}", "!\u{1F600}1", "!K1", "!D1", "!S1", "!R1"] {
+        v.insert(x.to_string());
+    }
+    for _ in 0..4 {
+        v.insert(format!("!{}{}", rng.pick(&['A', 'R', 'S', 'K', 'D', 'Z', 'a']), rng.below(6)));
+    }
+    v.into_iter().collect()
+}
+
+/// C03: after a history (optionally strip / reindex), every lookup string resolves to exactly the
+/// live item that carries it (or, as a temporary id of the right kind, to that live handle)
+fn run_ids(rep: &mut Report, script: &[String], with_reindex: bool, rng: &mut Rng) {
+    let mut ex = Exec::new();
+    let mut lines: Vec<String> = vec![];
+    let mut outs: Vec<String> = vec![];
+    for l in script {
+        let o = ex.exec(l);
+        lines.push(l.clone());
+        outs.push(o);
+    }
+    let strings = lookup_strings(script, rng);
+    // expected resolution from a plain scan of the live items, before any compaction
+    let scan = |store: &AnnotationStore, kind: &str, id: &str| -> Option<String> {
+        // returns a description of the item (id + content) so that it survives renumbering
+        match kind.split(':').next().unwrap() {
+            "ann" => store.annotations().find(|a| a.id() == Some(id)).map(|a| format!("{:?}|{}", a.id(), show_target_ids(store, a.as_ref()))),
+            "res" => store.resources().find(|a| a.id() == Some(id)).map(|a| format!("{:?}|{}", a.id(), a.textlen())),
+            "set" => store.datasets().find(|a| a.id() == Some(id)).map(|a| format!("{:?}", a.id())),
+            _ => None,
+        }
+    };
+    let describe = |store: &AnnotationStore, kind: &str, h: usize| -> Option<String> {
+        match kind {
+            "ann" => store.annotation(AnnotationHandle::new(h)).map(|a| format!("{:?}|{}", a.id(), show_target_ids(store, a.as_ref()))),
+            "res" => store.resource(TextResourceHandle::new(h)).map(|a| format!("{:?}|{}", a.id(), a.textlen())),
+            "set" => store.dataset(AnnotationDataSetHandle::new(h)).map(|a| format!("{:?}", a.id())),
+            _ => None,
+        }
+    };
+    let letter = |kind: &str| match kind { "ann" => 'A', "res" => 'R', _ => 'S' };
+    let parse_usize = |s: &str| -> Option<usize> { s.parse::<usize>().ok() };
+    // snapshot of expectations for public ids before reindex (ids must keep designating the same item)
+    let mut before: BTreeMap<(String, String), Option<String>> = BTreeMap::new();
+    for kind in ["ann", "res", "set"] {
+        for id in &strings {
+            before.insert((kind.to_string(), id.clone()), scan(&ex.store, kind, id));
+        }
+    }
+    if with_reindex {
+        let o = ex.exec("st reindex");
+        if o.starts_with("panic") {
+            rep.fail("panic", "C03/reindex/panic", script.to_vec(), "ok", &o);
+            return;
+        }
+    }
+    let mut ctx: Vec<String> = script.to_vec();
+    if with_reindex { ctx.push("st reindex".into()); }
+    for kind in ["ann", "res", "set"] {
+        for id in &strings {
+            let line = format!("st resolve {} {}", kind, hex(id));
+            let out = ex.exec(&line);
+            rep.count(&format!("resolve:{}", if out.starts_with('h') { "hit" } else { &out[..out.len().min(5)] }));
+            let mut c = ctx.clone();
+            c.push(format!("{}   # id={:?}", line, id));
+            if out.starts_with("panic") {
+                rep.fail("panic", &format!("C03/resolve-{}/panic", kind), c, "an item or nothing", &out);
+                continue;
+            }
+            // temporary id of the right kind?
+            let temp: Option<usize> = {
+                let mut it = id.chars();
+                if it.next() == Some('!') && it.next() == Some(letter(kind)) { parse_usize(it.as_str()) } else { None }
+            };
+            let got_desc = out.strip_prefix('h').and_then(|h| h.parse().ok()).and_then(|h: usize| describe(&ex.store, kind, h));
+            let want_desc = match temp {
+                Some(h) => describe(&ex.store, kind, h),
+                None => before.get(&(kind.to_string(), id.clone())).cloned().flatten(),
+            };
+            if got_desc != want_desc {
+                let cls = if temp.is_some() { "temp-id" } else if with_reindex { "after-reindex" } else if id.starts_with('!') { "temp-like" } else { "public-id" };
+                rep.fail("oracle", &format!("C03/resolve-{}/{}", kind, cls), c, &format!("{:?}", want_desc), &format!("{:?} ({})", got_desc, out));
+            }
+            if !with_reindex {
+                lines.push(line);
+                outs.push(out);
+            }
+        }
+    }
+    rep.model_case(lines, outs, "ids");
+}
+
+/// an annotation described independently of handles (its data count); targets are deliberately left
+/// out: `reindex()` does not renumber handles inside selectors (a known finding, see DESIGN.md)
+fn show_target_ids(_store: &AnnotationStore, a: &Annotation) -> String {
+    format!("{}", a.raw_data().len())
+}
+
 fn diff_kind(before: &str, after: &str) -> String {
     let b: Vec<&str> = before.split(' ').collect();
     let a: Vec<&str> = after.split(' ').collect();
@@ -949,6 +1102,24 @@ pub fn run(opts: &Opts) -> Report {
         rep.case(if nontrivial { Some(&key) } else { None });
         if i == 0 {
             rep.sample(json!({"script": script}));
+        }
+    }
+    // ---------- C03: identifier resolution on top of histories ----------
+    if property.map(|p| p == "C03").unwrap_or(true) {
+        let n03 = if opts.thorough() { 3000 } else { 400 };
+        for i in 0..n03 {
+            let mut g = Gen { rng: Rng::new(opts.seed.wrapping_mul(7_000_003).wrapping_add(i as u64)), res: vec![], sets: vec![], keys: vec![], anns: vec![], nann: 0, data_ids: vec![], next_id: 0 };
+            let n = 4 + g.rng.below(24);
+            let mut script: Vec<String> = (0..n).map(|_| g.op()).collect();
+            match g.rng.below(6) {
+                0 => script.push("st stripann".into()),
+                1 => script.push("st stripdata".into()),
+                _ => {}
+            }
+            let with_reindex = g.rng.chance(35);
+            run_ids(&mut rep, &script, with_reindex, &mut g.rng);
+            rep.case(Some(&script.join("|")));
+            rep.count("ids-script");
         }
     }
     // minimise the recorded oracle/panic failures (model failures are minimised after the model ran)
